@@ -58,6 +58,23 @@ def float_binop(op, a, b, node):
     if isinstance(op, ast.Div): return SFloat(F_DIV(x, y))
     if isinstance(op, ast.Add): return SFloat(F_ADD(x, y))
     raise Unsupported(f"float operator {type(op).__name__} line {getattr(node, 'lineno', 0)}")
+class SIte:
+    """value of a conditional expression whose branches have different kinds (e.g. int vs float): cond ? a : b"""
+    def __init__(s, c, a, b): s.c = c; s.a = a; s.b = b
+NOMERGE = object()
+def merge_values(c, a, b):
+    """one value standing for `a if c else b`, or NOMERGE"""
+    intlike = lambda v: isinstance(v, (int, SInt, SBV)) and not isinstance(v, bool)
+    if a is None and b is None: return None
+    if intlike(a) and intlike(b): return SInt(z3.If(c, to_int(a), to_int(b)))
+    if intlike(a) and b is None: return SOpt(z3.Not(c), to_int(a))
+    if a is None and intlike(b): return SOpt(c, to_int(b))
+    if isinstance(a, (bool, SBool)) and isinstance(b, (bool, SBool)): return SBool(z3.If(c, to_bool(a), to_bool(b)))
+    if isinstance(a, SFloat) and isinstance(b, SFloat): return SFloat(z3.If(c, a.e, b.e))
+    if (intlike(a) or isinstance(a, SFloat)) and (intlike(b) or isinstance(b, SFloat)): return SIte(c, a, b)
+    if isinstance(a, tuple) and a and a[0] == "tz_min" and b is None: return ("tz_opt", z3.Not(c), a[1])
+    if isinstance(b, tuple) and b and b[0] == "tz_min" and a is None: return ("tz_opt", c, b[1])
+    return NOMERGE
 class SOpt:
     """Optional[int]: isnone (z3 Bool) + val (z3 Int), split lazily at `is None` tests"""
     def __init__(s, isnone, val): s.isnone = isnone; s.val = val
@@ -138,7 +155,7 @@ class State:
     def __init__(s):
         s.locals = {}; s.heap = {}; s.pc = []; s.ghost = {}
     def fork(s):
-        cp = lambda v: list(v) if isinstance(v, list) else dict(v) if isinstance(v, dict) else v      # mutable containers are per path
+        cp = lambda v: list(v) if type(v) is list else dict(v) if type(v) is dict else v      # plain mutable containers are per path (parse trees are immutable values)
         t = State(); t.locals = {k: cp(v) for k, v in s.locals.items()}; t.pc = list(s.pc); t.ghost = {k: cp(v) for k, v in s.ghost.items()}
         t.heap = {k: (c, {fk: cp(fv) for fk, fv in f.items()}) for k, (c, f) in s.heap.items()}
         return t
@@ -250,20 +267,27 @@ class Engine:
                         for cand in (f"{m}.{nm}",) + tuple(f"{mm}.{nm.split('.')[-1]}" for mm in s.trees):
                             if cand in s.classes: bs.append(cand); break
                     s.bases[f"{m}.{node.name}"] = bs
-        # constants, in source order, evaluated by this engine in concrete mode
+        # module- and class-level statements, in source order, executed by this engine in concrete mode (assignments, loops that fill
+        # tables, ...): what the constants are is what the source on disk computes, not what an imported module happens to hold
         for m, t in s.trees.items():
+            s._exec_toplevel(m, None, t.body)
             for node in t.body:
-                if isinstance(node, ast.Assign) and len(node.targets) == 1 and isinstance(node.targets[0], ast.Name):
-                    s._try_const(m, None, node)
-                elif isinstance(node, ast.AnnAssign) and node.value is not None and isinstance(node.target, ast.Name):
-                    tgt = ast.Assign(targets=[node.target], value=node.value); ast.copy_location(tgt, node); s._try_const(m, None, tgt)
-                elif isinstance(node, ast.ClassDef):
-                    for sub in node.body:
-                        tgt = None
-                        if isinstance(sub, ast.Assign) and len(sub.targets) == 1 and isinstance(sub.targets[0], ast.Name): tgt = sub
-                        elif isinstance(sub, ast.AnnAssign) and sub.value is not None and isinstance(sub.target, ast.Name):
-                            tgt = ast.Assign(targets=[sub.target], value=sub.value); ast.copy_location(tgt, sub)
-                        if tgt is not None: s._try_const(m, f"{m}.{node.name}", tgt)
+                if isinstance(node, ast.ClassDef): s._exec_toplevel(m, f"{m}.{node.name}", node.body)
+
+    def _exec_toplevel(s, m, cls, body):
+        ms = State(); ctx = Ctx(s, m, cls, f"{cls or m}.<toplevel>")
+        for node in body:
+            if isinstance(node, (ast.FunctionDef, ast.AsyncFunctionDef, ast.ClassDef, ast.Import, ast.ImportFrom)): continue
+            if isinstance(node, ast.Expr) and isinstance(node.value, ast.Constant): continue
+            try:
+                trial = ms.fork()
+                res = s.exec(node, trial, ctx)
+                if len(res) == 1 and res[0][1] == NORMAL: ms = res[0][0]
+            except (Unsupported, KeyError, TypeError, AssertionError, ValueError, IndexError, AttributeError, ZeroDivisionError, RecursionError):
+                continue
+            for name, v in ms.locals.items():
+                if name.startswith("__") or is_sym(v) or isinstance(v, Raised): continue
+                s.consts[f"{cls or m}.{name}"] = v
 
     def _try_const(s, m, cls, node):
         name = node.targets[0].id
@@ -353,6 +377,10 @@ class Engine:
         return out
 
     def getattr(s, st, base, attr, ctx, node):
+        hook = getattr(s, "getattr_hook", None)
+        if hook is not None and not isinstance(base, Ref):
+            r = hook(st, base, attr, ctx, node)
+            if r is not None: return r
         if isinstance(base, Ref):
             cls = st.cls(base); flds = st.heap[base.oid][1]
             if attr in flds: return [(st, flds[attr])]
@@ -452,7 +480,20 @@ class Engine:
         out = []
         for st1, c in s.eval(e.test, st, ctx):
             if isinstance(c, Raised): out.append((st1, c)); continue
-            for st2, branch in s.split(st1, c):
+            parts = s.split(st1, c, check=True)
+            if len(parts) == 2:
+                # both branches feasible: try to merge the two values into one (no path split) when neither branch raises or forks
+                (sa, _), (sb, _) = parts; n0 = len(st1.pc) + 1
+                ra = s.eval(e.body, sa, ctx); rb = s.eval(e.orelse, sb, ctx)
+                if len(ra) == 1 and len(rb) == 1 and not isinstance(ra[0][1], Raised) and not isinstance(rb[0][1], Raised):
+                    cz = sa.pc[len(st1.pc)]
+                    mv = merge_values(cz, ra[0][1], rb[0][1])
+                    if mv is not NOMERGE:
+                        stm = st1.fork()
+                        stm.pc += [z3.Implies(cz, h) for h in ra[0][0].pc[n0:]] + [z3.Implies(z3.Not(cz), h) for h in rb[0][0].pc[n0:]]
+                        out.append((stm, mv)); continue
+                out += ra + rb; continue
+            for st2, branch in parts:
                 out += s.eval(e.body if branch else e.orelse, st2, ctx)
         return out
 
@@ -751,6 +792,14 @@ class Engine:
         if h is not None:
             r = h(s, st, args, kw or {}, ctx, node)
             if r is not None: return r
+        if name == "int" and args and all(not is_sym(a) and isinstance(a, (str, int, float)) for a in args) and not (kw or {}):
+            res = []
+            try: val = int(*args)
+            except ValueError: val = None
+            for st1, r in s.implicit_failure(st, ctx, "safe:int", val is not None, "ValueError", node):
+                res.append((st1, r if r is not None else val))
+            return res
+        if name in ("tuple", "list") and len(args) == 1 and isinstance(args[0], (list, tuple)): return [(st, tuple(args[0]) if name == "tuple" else list(args[0]))]
         if name == "len":
             v = args[0]
             if isinstance(v, SBytes): return [(st, SInt(v.n))]
@@ -855,6 +904,8 @@ class Engine:
                 if i: parts.append(z3.StringVal(base))
                 parts.append(to_str(x))
             return [(st, SStr(z3.Concat(*parts)) if len(parts) > 1 else SStr(parts[0]))]
+        if isinstance(base, dict) and attr in ("items", "keys", "values") and not args:
+            return [(st, [tuple(kv) for kv in base.items()] if attr == "items" else list(base.keys()) if attr == "keys" else list(base.values()))]
         if isinstance(base, dict) and attr == "get" and 1 <= len(args) <= 2 and not is_sym(args[0]):
             try: return [(st, base.get(args[0], args[1] if len(args) == 2 else None))]
             except TypeError: raise Unsupported("dict.get key")
@@ -1402,7 +1453,8 @@ class Ctx:
         return s.next_loop()
     def oblige(s, st, kind, goal, node, reveal=False, **meta):
         g = goal if isinstance(goal, z3.ExprRef) else z3.BoolVal(bool(goal))
-        if z3.is_true(z3.simplify(g)): return
+        if z3.is_true(z3.simplify(g)):
+            s.eng.stats["trivially_true_after_simplification"] = s.eng.stats.get("trivially_true_after_simplification", 0) + 1; return
         key = (s.qual, kind)
         n = s.root.counts.get(key, 0); s.root.counts[key] = n + 1
         where = "" if s.qual == s.root.qual else f"@{s.qual.split('.')[-1]}"
